@@ -285,6 +285,29 @@ def runM : Nat → Scope → List Instr → StateM → Res StateM
 
 end
 
+/-- `runM` with a discarding output (see `MJ.Vm.runD`): what is written to the bottom entry is
+thrown away, captures above it (and the outputs of macro calls) buffer as usual -/
+def runMD : Nat → Scope → List Instr → StateM → Res StateM
+  | 0, _, _, _ => .error .fuel
+  | fuel + 1, ctx, code, s =>
+    match code[s.pc]? with
+    | none => .ok s
+    | some .return_ => .ok s
+    | some i => match stepM fuel ctx code i s with
+      | .ok s' => runMD fuel ctx code { s' with outs := (MJ.Vm.eraseBottom { outs := s'.outs }).outs }
+      | .error e => .error e
+
+/-- the first `boundary` instructions run with a discarding output (child template / module), the
+rest (layout / importing template) continues in the same frames with a fresh output; the macros of
+the first part stay callable -/
+def renderCodeAfterM (fuel : Nat) (ctx : Scope) (code : List Instr) (boundary : Nat) : Res String :=
+  match runMD fuel ctx (code.take boundary) {} with
+  | .ok s1 =>
+    match runM fuel ctx code { s1 with pc := boundary, stack := [], outs := [""] } with
+    | .ok s => .ok (s.outs.getLast?.getD "")
+    | .error e => .error e
+  | .error e => .error e
+
 def renderCodeM (fuel : Nat) (ctx : Scope) (code : List Instr) : Res String :=
   match runM fuel ctx code {} with
   | .ok s => .ok (s.outs.getLast?.getD "")
